@@ -1868,8 +1868,8 @@ func C12(rc *vk.Rec) {
 // C12H runs the dumbindent text family that contains a section start after a
 // multi-line section has closed on the same line.
 func C12H(rc *vk.Rec) {
-	// These texts are a few hundred bytes; 512 MiB is >100000x what any of them
-	// needs and is reached (on the unfixed tree) within seconds.
-	c12limitAS(rc, 512<<20)
+	// These texts are a few hundred bytes and the whole child needs ~10 MB;
+	// 256 MiB is reached (on the unfixed tree) within seconds.
+	c12limitAS(rc, 256<<20)
 	c12dumb(rc, true)
 }
